@@ -81,3 +81,40 @@ package bmnumbers
 //@   loop 1: modifies nothing
 //@   loop 1: invariant built: len(result) == 2 * (len(n.number) - 1 - i) && -1 <= i && i < len(n.number)
 //@   loop 2: invariant kept: (pre(len(result)) >= 1 ==> len(result) >= 1) && len(result) <= pre(len(result))
+
+// ---- the run-time type registry (property C09: simulations do not influence one another) -----------------------
+
+//@ props C09
+
+//@ interface BMNumberType method GetName() string
+//@   pure
+//@   reads nothing
+//@   trusted
+
+//@ interface DynamicalType method MatchName(name string) bool
+//@   pure
+//@   trusted
+
+//@ interface DynamicalType method CreateType(name string, param interface{}) (BMNumberType, error)
+//@   ensures made: result1 == nil ==> result != nil
+//@   assigns nothing
+//@   trusted
+
+//@ interface BMNumberType method importMatchers() map[string]ImportFunc
+//@   assigns nothing
+//@   trusted
+
+// Asking for a type that is already registered (the simulator does so for every shown value on every tick) writes
+// nothing: the global registries are only extended the first time a name is seen.
+//@ func EventuallyCreateType(name string, param interface{}) (bool, error)
+//@   requires AllMatchers != nil
+//@   ensures idempotent: (exists k int :: 0 <= k && k < old(len(AllTypes)) && old(AllTypes[k]).GetName() == name) ==>
+//@             !result && result1 == nil && len(AllTypes) == old(len(AllTypes))
+//@   ensures kept: len(AllTypes) >= old(len(AllTypes)) && (forall k int :: 0 <= k && k < old(len(AllTypes)) ==> AllTypes[k] == old(AllTypes[k]))
+//@   ensures matchers_kept: (exists k int :: 0 <= k && k < old(len(AllTypes)) && old(AllTypes[k]).GetName() == name) ==>
+//@             (forall p string :: haskey(AllMatchers, p) == old(haskey(AllMatchers, p)))
+//@   assigns AllTypes, spare(AllTypes), AllMatchers[*]
+//@   loop 1: modifies nothing
+//@   loop 2: modifies nothing
+//@   loop 2: invariant absent: forall k int :: 0 <= k && k < $i ==> AllTypes[k].GetName() != name
+//@   loop 3: modifies AllMatchers[*]
